@@ -202,7 +202,7 @@ class MethodRegistry:
 
         def decorator(method: MethodType) -> MethodType:
             full_name = '.'.join(filter(None, (self._prefix, name or method.__name__)))
-            self.add_methods(Method(method, full_name, context, positional))
+            self._add_method(Method(method, full_name, context, positional))
 
             return method
 
@@ -221,6 +221,8 @@ class MethodRegistry:
 
         for method in methods:
             if isinstance(method, Method):
+                if self._prefix:
+                    method = method.copy(name=f'{self._prefix}.{method.name}')
                 self._add_method(method)
             else:
                 self.add(method)
